@@ -1,11 +1,12 @@
-import json, sys, glob
+import json, sys, glob, os
+V=os.path.dirname(os.path.dirname(os.path.abspath(__file__)))
 import jsonschema
-m = json.load(open('/verif/MANIFEST.json'))
+m = json.load(open(V+'/MANIFEST.json'))
 jsonschema.validate(m, json.load(open('/root/.vp/MANIFEST.schema.json')))
 es = json.load(open('/root/.vp/EVIDENCE.schema.json'))
 for c in m['checks']:
     try:
-        jsonschema.validate(json.load(open('/verif/' + c['evidence_file'])), es)
+        jsonschema.validate(json.load(open(V+'/' + c['evidence_file'])), es)
     except Exception as e:
         print('EVIDENCE INVALID', c['property_id'], str(e)[:300])
 print('manifest ok;', len(m['checks']), 'checks')
